@@ -13,7 +13,7 @@ func init() {
 // cfgFromIn / cfgToIn: session configs inside replayable input maps.
 func cfgFromIn(in map[string]string) SessCfg {
 	sc := SessCfg{Nick: in["nick"], User: in["nick"], AllowFlood: in["flood"] != "0", NickCollide: in["collide"], SASL: in["sasl"], SASLUser: in["sasluser"], SASLPass: in["saslpass"],
-		DisableTracking: in["notrack"] == "1", DisableSTS: in["nosts"] == "1", DisableSTSFallback: in["nofallback"] == "1", SSL: in["ssl"] == "1", Version: in["version"],
+		DisableTracking: in["notrack"] == "1", DisableSTS: in["nosts"] == "1", DisableSTSFallback: in["nofallback"] == "1", SSL: in["ssl"] == "1", Version: in["version"], MutatingHandlers: in["scribblers"] == "1",
 		ServerPass: in["serverpass"], GlobalFormat: in["globalformat"] == "1"}
 	if in["webirc"] != "" {
 		sc.WebIRC = strings.Split(in["webirc"], "\x00")
@@ -261,6 +261,7 @@ func (r *RNG) hostileLine(nick string) string {
 }
 
 func runC05(c *Ctx) {
+	runModeSyntax(c)
 	r := c.R
 	r.Rule = "hostile histories on a real client (MockConnect over net.Pipe, RecoverFunc recording, worker subprocess so a crash is an observation, barrier PING + getter liveness after every line): " +
 		"(i) EXHAUSTIVE registry x 0..9 params x source present/absent x account-tag; (ii) random sequences from small colliding name pools (case variants, NICK onto existing nicks, replies for unknown channels, " +
@@ -277,7 +278,9 @@ func runC05(c *Ctx) {
 	}
 	// (i) exhaustive small: every command the client reacts to, too few / too many params, with/without source and account tag
 	cmds := []string{"JOIN", "PART", "KICK", "QUIT", "NICK", "353", "MODE", "324", "352", "354", "TOPIC", "332", "004", "005", "375", "372", "PRIVMSG", "NOTICE",
-		"CAP", "CHGHOST", "AWAY", "ACCOUNT", "AUTHENTICATE", "903", "902", "904", "905", "906", "908", "433", "436", "437", "001", "PING", "PONG"}
+		"CAP", "CHGHOST", "AWAY", "ACCOUNT", "AUTHENTICATE", "903", "902", "904", "905", "906", "908", "433", "436", "437", "001", "PING", "PONG",
+		// (everything the log formatter Event.Pretty looks into as well: it runs for every event when Config.Out is set)
+		"INVITE", "002", "003", "251", "ERROR", "SETNAME", "BATCH", "TAGMSG", "WALLOPS", "366", "315", "329", "333"}
 	for _, cmd := range cmds {
 		for np := 0; np <= 9; np++ {
 			ps := []string{"me", "#a", "bob", "1", "x", "y", "z", "w", "v"}[:np]
@@ -331,14 +334,33 @@ func runC05(c *Ctx) {
 			run(steps, "rename-spellings")
 		}
 	}
+	// (iii-b) directed: a privilege change naming a user who is tracked but NOT a member of that channel, who then joins it,
+	// leaves again by every route, and finally the client leaves the channel
+	for _, flag := range []string{"+v", "+o", "+ov", "-o", "+b"} {
+		for _, leave := range []string{"QUIT :bye", "PART #a", "NICK bobby", "KICK"} {
+			if c.Tier != "thorough" && (len(flag)+len(leave)+int(c.R.Seed))%2 != 0 {
+				continue
+			}
+			steps := []string{"R:srv 001 me :Welcome", "R:me!u@h JOIN #a", "R:srv 353 me = #a :me @carl", "R:me!u@h JOIN #b", "R:srv 353 me = #b :me bob",
+				"R:carl!u@h MODE #a " + flag + " bob bob", "D", "R:bob!u@h JOIN #a", "D"}
+			if leave == "KICK" {
+				steps = append(steps, "R:carl!u@h KICK #a bob :out", "D")
+			} else {
+				steps = append(steps, "R:bob!u@h "+leave, "D")
+			}
+			steps = append(steps, "R:bob!u@h PART #b", "D", "R:me!u@h PART #a", "D", "R:me!u@h PART #b", "D")
+			run(steps, "mode-nonmember")
+		}
+	}
 	// (iv) directed: malformed ISUPPORT values for the tokens the tracker consumes, then the events that use them
 	for _, tok := range []string{"PREFIX=(", "PREFIX=()", "PREFIX=)", "PREFIX=)(", "PREFIX=(o", "PREFIX=(o)", "PREFIX=(ov)@", "PREFIX=(o)@+", "PREFIX=",
 		"PREFIX", "PREFIX=((ov))@+", "PREFIX=(ov)@+x", "PREFIX=(qaohv)~&@%+", "PREFIX=@+", "PREFIX=(ov)", "PREFIX=(\x01)\x01",
 		"CHANMODES=", "CHANMODES=,", "CHANMODES=,,,", "CHANMODES=b,k,l", "CHANMODES=b,k,l,imn,extra", "CHANMODES=(", "CHANMODES=beI,k,l,imnpst,",
-		"CHANMODES=b k", "CHANTYPES=", "NICKLEN=", "NICKLEN=-1", "NICKLEN=99999999999999999999", "LINELEN=0", "LINELEN=-5", "LINELEN=2", "HOSTLEN=x", "USERLEN=0"} {
+		"CHANMODES=b k", "CHANTYPES=", "CASEMAPPING=ascii", "CASEMAPPING=rfc1459", "CASEMAPPING=", "CASEMAPPING=ascii PREFIX=(ov)@+", "NICKLEN=", "NICKLEN=-1", "NICKLEN=99999999999999999999", "LINELEN=0", "LINELEN=-5", "LINELEN=2", "HOSTLEN=x", "USERLEN=0"} {
 		steps := []string{"R:srv 001 me :Welcome", "R:srv 005 me " + tok + " :are supported by this server", "D",
-			"R:me!u@h JOIN #n", "D", "R:srv 353 me = #n :me @bob +carl ~dan &eve %fay @+gus", "D",
-			"R:srv MODE #n +ov-v bob carl gus", "R:srv 324 me #n +ntkl key 5", "D", "R:bob!u@h PRIVMSG #n :hi", "D"}
+			"R:me!u@h JOIN #n", "D", "R:srv 353 me = #n :me @bob +carl ~dan &eve %fay @+gus d[x] e^f", "D",
+			"R:srv MODE #n +ov-v bob carl gus", "R:srv 324 me #n +ntkl key 5", "D", "R:bob!u@h PRIVMSG #n :hi", "D",
+			"R:D{X}!u@h PART #n", "D", "R:d[x]!u@h JOIN #N", "R:E~F!u@h NICK e^g", "D", "R:d{x}!u@h QUIT :bye", "D"}
 		run(steps, "isupport-malformed")
 	}
 }
